@@ -234,9 +234,19 @@ def _copy_nfa_delta(delta, N: NFA, epsilon: Symbol) -> None:
         delta[q, epsilon if a == N.epsilon else a] |= Q1
 
 
-def nfa_repetition(N: NFA, id_generator: IdentifierGenerator = IdentifierGenerator()) -> NFA:
+def _fresh_nfa_state(Q: Set[State], id_generator: Optional[IdentifierGenerator]) -> State:
+    """Returns a generated state that is not in Q"""
+    if id_generator is None:
+        id_generator = IdentifierGenerator()
+    q = State(id_generator.generate('q'))
+    while q in Q:
+        q = State(id_generator.generate('q'))
+    return q
+
+
+def nfa_repetition(N: NFA, id_generator: Optional[IdentifierGenerator] = None) -> NFA:
     Sigma = N.Sigma
-    q0 = State(id_generator.generate('q'))
+    q0 = _fresh_nfa_state(N.Q, id_generator)
     Q = N.Q | {q0}
     F = N.F | {q0}
     delta = defaultdict(lambda: set([]))
@@ -247,10 +257,10 @@ def nfa_repetition(N: NFA, id_generator: IdentifierGenerator = IdentifierGenerat
     return NFA(Q, Sigma, delta, q0, F, N.epsilon)
 
 
-def nfa_union(N1: NFA, N2: NFA, id_generator: IdentifierGenerator = IdentifierGenerator()) -> NFA:
+def nfa_union(N1: NFA, N2: NFA, id_generator: Optional[IdentifierGenerator] = None) -> NFA:
     assert N1.Q.isdisjoint(N2.Q)
     Sigma = N1.Sigma | N2.Sigma
-    q0 = State(id_generator.generate('q'))
+    q0 = _fresh_nfa_state(N1.Q | N2.Q, id_generator)
     Q = N1.Q | N2.Q | {q0}
     F = N1.F | N2.F
     delta = defaultdict(lambda: set([]))
